@@ -472,6 +472,126 @@ func runL2Case(c *l2Case, samples, args []any) (res *l2Run) {
 	return res
 }
 
+// altArgs builds other values of the same types (same map keys, same slice lengths).
+func altArgs(r *rng.R, args []any) []any {
+	out := make([]any, len(args))
+	for i, a := range args {
+		if a == nil {
+			continue
+		}
+		v := reflect.ValueOf(a)
+		nv := reflect.New(v.Type()).Elem()
+		copyShape(r, v, nv, 0)
+		out[i] = nv.Interface()
+	}
+	return out
+}
+
+// copyShape fills dst with values different from src but of the same shape.
+func copyShape(r *rng.R, src, dst reflect.Value, depth int) {
+	if !dst.CanSet() || depth > 8 {
+		return
+	}
+	switch src.Kind() {
+	case reflect.Pointer:
+		if src.IsNil() {
+			return
+		}
+		p := reflect.New(src.Type().Elem())
+		copyShape(r, src.Elem(), p.Elem(), depth+1)
+		dst.Set(p)
+	case reflect.Interface:
+		if src.IsNil() {
+			return
+		}
+		nv := reflect.New(src.Elem().Type()).Elem()
+		copyShape(r, src.Elem(), nv, depth+1)
+		dst.Set(nv)
+	case reflect.Struct:
+		for i := 0; i < src.NumField(); i++ {
+			copyShape(r, src.Field(i), dst.Field(i), depth+1)
+		}
+	case reflect.Map:
+		if src.IsNil() {
+			return
+		}
+		m := reflect.MakeMap(src.Type())
+		it := src.MapRange()
+		for it.Next() {
+			ev := reflect.New(src.Type().Elem()).Elem()
+			copyShape(r, it.Value(), ev, depth+1)
+			m.SetMapIndex(it.Key(), ev)
+		}
+		dst.Set(m)
+	case reflect.Slice:
+		if src.IsNil() {
+			return
+		}
+		sl := reflect.MakeSlice(src.Type(), src.Len(), src.Len())
+		for i := 0; i < src.Len(); i++ {
+			copyShape(r, src.Index(i), sl.Index(i), depth+1)
+		}
+		dst.Set(sl)
+	case reflect.Int, reflect.Int8, reflect.Int16, reflect.Int32, reflect.Int64:
+		if !src.IsZero() {
+			dst.SetInt(int64(r.Intn(100) + 1))
+		}
+	case reflect.Uint, reflect.Uint8, reflect.Uint16, reflect.Uint32, reflect.Uint64:
+		if !src.IsZero() {
+			dst.SetUint(uint64(r.Intn(100) + 1))
+		}
+	case reflect.String:
+		if !src.IsZero() {
+			dst.SetString(fmt.Sprintf("alt%d", r.Intn(1000)))
+		}
+	case reflect.Float32, reflect.Float64:
+		if !src.IsZero() {
+			dst.SetFloat(float64(r.Intn(1000)) + 0.125)
+		}
+	case reflect.Bool:
+		dst.SetBool(src.Bool())
+	}
+}
+
+// runL2Interleaved builds two Queries on one Statement (the case's arguments, then other
+// values of the same shape) before running the first: its SQL and arguments must be what
+// it produces when run alone (C16).
+func runL2Interleaved(c *l2Case, alt []any) (res *l2Run) {
+	res = &l2Run{mode: "none"}
+	defer func() {
+		if p := recover(); p != nil {
+			res.panic = fmt.Sprint(p)
+		}
+	}()
+	env := newL2Env()
+	defer env.db.PlainDB().Close()
+	stmt, err := sqlair.Prepare(c.Q, c.Samples...)
+	if err != nil {
+		return res
+	}
+	res.prepOk = true
+	q1 := env.db.Query(context.Background(), stmt, c.Args...)
+	q2 := env.db.Query(context.Background(), stmt, alt...)
+	_ = q2
+	err = q1.Run()
+	for _, e := range env.state.Events() {
+		switch e.Kind {
+		case "prepare":
+			res.sql = e.SQL
+		case "exec", "query":
+			res.mode = e.Kind
+			for i, n := range e.Names {
+				res.params = append(res.params, [2]string{n, e.Args[i]})
+			}
+		}
+	}
+	if err != nil && strings.HasPrefix(err.Error(), "invalid input parameter: ") {
+		return res
+	}
+	res.bindOk = true
+	return res
+}
+
 func l2Request(c *l2Case, res *l2Run) map[string]any {
 	tbl := desc.NewTable()
 	samples := []any{}
@@ -580,6 +700,13 @@ func runL2(args []string) {
 			if r2.key() != res.key() {
 				det = false
 				detail = fmt.Sprintf("permuted samples/arguments gave a different result: %v vs %v", r2.obs(), res.obs())
+			}
+			if res.prepOk && res.bindOk && len(c.Args) > 0 {
+				r3 := runL2Interleaved(c, altArgs(cr, c.Args))
+				if r3.key() != res.key() {
+					det = false
+					detail = fmt.Sprintf("a Query built before another Query of the same Statement ran with different SQL/arguments than alone: %v vs %v", r3.obs(), res.obs())
+				}
 			}
 			if *conc > 0 && res.prepOk {
 				var wg sync.WaitGroup
